@@ -98,7 +98,7 @@ def run(ctx, out):
                 'dict/dataclass, dataclass/dataclass, conditions), x values (valid for a random member / near / arbitrary); the '
                 'union result is compared with each member tried alone in declaration order; serialisation compared with the '
                 'accepting members. Non-trivial = non-leaf type; distinct by (type term, value).')
-    convprop.run(ctx, out, PROP, monitor, cfg={'overlap': True, 'weights': {'union': 9.0}})
+    convprop.run(ctx, out, PROP, monitor, twins=True, cfg={'overlap': True, 'weights': {'union': 9.0}})
 
 
 def replay(rep, out):
